@@ -20,7 +20,7 @@ class _Type:
         if args and all(isinstance(a, _Type) for a in args):
             return _Sig(self, args)
         # used as a cast inside a kernel
-        return symnp._w(args[0]).astype(self.dtype) if isinstance(args[0], symnp.ndarray_impl) else self.dtype.type(args[0])
+        return symnp._w(args[0]).astype(self.dtype) if symnp._is_shim(args[0]) else self.dtype.type(args[0])
 
     def __repr__(self):
         return f'numba.{self.name}'
